@@ -582,9 +582,13 @@ func finish(c *Ctx, m *runMeta) int {
 		"wall_s":      time.Since(m.start).Seconds(),
 		"violations":  nViol,
 	}
-	_ = os.MkdirAll(filepath.Join(c.Root, "evidence"), 0o755)
+	evDir := filepath.Join(c.Root, "evidence")
+	if d := os.Getenv("GUCHECK_EVIDENCE_DIR"); d != "" {
+		evDir = d // the seeded-change tools check a deliberately broken tree: its evidence must not replace the tree's own
+	}
+	_ = os.MkdirAll(evDir, 0o755)
 	b, _ := json.MarshalIndent(ev, "", " ")
-	if err := os.WriteFile(filepath.Join(c.Root, "evidence", c.Prop+".json"), b, 0o644); err != nil {
+	if err := os.WriteFile(filepath.Join(evDir, c.Prop+".json"), b, 0o644); err != nil {
 		fmt.Fprintln(os.Stderr, "ANALYSIS-ERROR: cannot write evidence:", err)
 		return 2
 	}
